@@ -82,6 +82,45 @@ class MinEngine:
         self.res.violations.append(v)
         self.ev.setdefault('viol', []).append(v.sig)
 
+    def wasteful_net(self, rng) -> Net:
+        """A chain of deliberately wasteful blocks (each improvable in XAIG/FULL, several in AIG), so that one
+        call performs several replacements and later cuts meet the structure earlier ones changed."""
+        n = rng.choice((2, 3, 3, 4))
+        gates = {str(i): ('INPUT', ()) for i in range(n)}
+        inputs = [str(i) for i in range(n)]
+        pool = list(inputs)
+        k = 0
+
+        def new(t, ops):
+            nonlocal k
+            lab = f'w{k}'
+            k += 1
+            gates[lab] = (t, tuple(ops))
+            return lab
+
+        outs = []
+        for _ in range(rng.randint(2, 4)):
+            a, b = rng.sample(pool, 2) if len(pool) >= 2 else (pool[0], pool[0])
+            c = rng.choice(pool)
+            style = rng.choice(('xor3', 'xnor3', 'and-or', 'mux', 'double-neg', 'maj'))
+            if style == 'xor3':
+                o = new('AND', [new('OR', [a, b]), new('NAND', [a, b])])
+            elif style == 'xnor3':
+                o = new('OR', [new('AND', [a, b]), new('NOR', [a, b])])
+            elif style == 'and-or':
+                o = new('OR', [new('AND', [a, b]), new('AND', [a, c])])
+            elif style == 'mux':
+                o = new('OR', [new('AND', [a, b]), new('GT', [c, a])])
+            elif style == 'double-neg':
+                o = new('NOT', [new('NOT', [new(rng.choice(('AND', 'OR', 'XOR')), [a, b])])])
+            else:
+                ab, bc, ac = new('AND', [a, b]), new('AND', [b, c]), new('AND', [a, c])
+                o = new('OR', [new('OR', [ab, bc]), ac])
+            pool.append(o)
+            outs.append(o)
+        outputs = [outs[-1]] + ([rng.choice(outs)] if rng.random() < 0.5 else [])
+        return Net(gates, inputs, outputs)
+
     def distinct_functions(self, net: Net):
         try:
             val, _ = net.all_lanes()
@@ -103,10 +142,23 @@ class MinEngine:
             net = self.last
             st.bump('result-fed-back')
         else:
-            n = weighted_choice(rng, [(2, 3), (3, 5), (4, 4), (5, 2), (6, 1)])
-            g = weighted_choice(rng, [(rng.randint(3, 8), 6), (rng.randint(9, 14), 3), (rng.randint(15, 25), 1)])
-            net = gennet.random_net(rng, n, g, list(SUPPORTED), 2, rng.choice(('plain', 'digits')),
-                                    n_outputs=rng.choice((1, 1, 2, 2, 3)), locality=rng.choice((0.0, 0.5, 0.8)))
+            dense = rng.random() < 0.25
+            if rng.random() < 0.2:
+                net = self.wasteful_net(rng)
+                st.bump('wasteful-circuit')
+            elif dense:
+                # few inputs, many gates, local wiring: many overlapping, improvable cones; several
+                # replacements in one call, later cuts computed on the structure that earlier ones changed
+                n = rng.choice((2, 3, 3, 4))
+                g = rng.randint(9, 18)
+                net = gennet.random_net(rng, n, g, list(SUPPORTED), 2, rng.choice(('plain', 'digits')),
+                                        n_outputs=rng.choice((1, 2, 3)), locality=rng.choice((0.6, 0.8, 0.9)))
+                st.bump('dense-circuit')
+            else:
+                n = weighted_choice(rng, [(2, 3), (3, 5), (4, 4), (5, 2), (6, 1)])
+                g = weighted_choice(rng, [(rng.randint(3, 8), 6), (rng.randint(9, 14), 3), (rng.randint(15, 25), 1)])
+                net = gennet.random_net(rng, n, g, list(SUPPORTED), 2, rng.choice(('plain', 'digits')),
+                                        n_outputs=rng.choice((1, 1, 2, 2, 3)), locality=rng.choice((0.0, 0.5, 0.8)))
             if not net.outputs:
                 return
         try:
@@ -174,13 +226,17 @@ class MinEngine:
             result = self.m['minimization'].minimize_subcircuits(real, basis, **kw)
         except Exception as e:  # noqa
             exc = e
-        marks = sorted(set(world.logtap.take()))
+        marks_all = world.logtap.take()
+        marks = sorted(set(marks_all))
         self.ev['branches'] = marks
         pools = self.res.stats.peer_calls.get('pool.call', 0) - pool_before
         died = self.res.stats.fired.get('pool.call:death', 0) - fired_before.get('pool.call:death', 0)
         timed = self.res.stats.fired.get('pool.call:timeout', 0) - fired_before.get('pool.call:timeout', 0)
         if timed:
             st.bump('op-with-timeouts')
+        nspl = marks_all.count('spliced')
+        if nspl >= 2:
+            st.bump('op-with-two-or-more-replacements')
         if 'spliced' in marks:
             st.bump('branch:spliced')
             if timed:
